@@ -459,10 +459,11 @@ struct app {
         size_t nt = vt::timer_registry::get().live(), np = W().pending_ops();
         int undone = 0; for (auto& [id, o] : ops) if (!o.done) ++undone;
         ioc.restart(); size_t extra = ioc.poll();
-        // "runs out of work": with nothing ready, run_one_for returns at once iff no work is outstanding
-        ioc.restart(); ioc.run_for(std::chrono::milliseconds(0));
+        // "runs out of work": poll() stops the context iff no work is outstanding.  (No run_for / run_one_for here: they
+        // compare wall-clock times before entering the scheduler and, on a loaded machine, can return without ever looking
+        // at the work count - which produced two spurious "context still has work" reports in 149 000 scenarios.)
+        ioc.restart(); extra += ioc.poll();
         bool stopped = ioc.stopped();
-        if (!stopped) { ioc.restart(); ioc.run_one_for(std::chrono::milliseconds(2)); stopped = ioc.stopped(); }
         jev(ev).i("timers", (long long) nt).i("pending", (long long) np).i("undone", undone).i("stopped", stopped ? 1 : 0).i("extra", (long long) extra).i("streams", (long long) W().streams.size());
     }
 
